@@ -312,7 +312,7 @@ class Outcome:
 
 
 def count_paths(stmts: List[ast.stmt], hit: Callable[[ast.stmt], int],
-                raises_escape: bool = True, assume_loop_once: bool = False) -> Outcome:
+                raises_escape: bool = True, assume_loop_once: bool = False, hit_first_in_try: bool = False) -> Outcome:
     """Interval of `hit` counts over all syntactic paths through `stmts`.
 
     hit(stmt) -> number of hits contributed by a *simple* statement (or by the
@@ -396,8 +396,18 @@ def count_paths(stmts: List[ast.stmt], hit: Callable[[ast.stmt], int],
                 else:
                     pre.add(kind, a, b)
             if st.handlers:
+                lead = 0
+                if hit_first_in_try:
+                    # the obligated calls themselves are assumed not to raise the
+                    # caught exception: an exception can only surface after the
+                    # leading run of pure obligated-call statements
+                    for bs in st.body:
+                        if isinstance(bs, ast.Expr) and isinstance(bs.value, ast.Call) and hit(bs) >= 1:
+                            lead += hit(bs)
+                        else:
+                            break
                 for hd in st.handlers:
-                    pre.merge(seq(hd.body, 0, body_hi))
+                    pre.merge(seq(hd.body, lead, max(body_hi, lead)))
             if st.finalbody:
                 for kind, (a, b) in pre.k.items():
                     f = seq(st.finalbody, a, b)
